@@ -123,9 +123,6 @@ struct qs_agent {
 	void offline() {
 		FRG_ASSERT(_acked_qs_counter);
 
-		// TODO: We need to handle this case here.
-		FRG_ASSERT(!_qs_deferred);
-
 		{
 			lock_guard<M> lock(_dom->_mutex);
 			
@@ -133,7 +130,14 @@ struct qs_agent {
 
 			// We might need to ack before going offline.
 			auto ctr = _dom->_qs_counter.load(std::memory_order_relaxed);
-			if(_acked_qs_counter != ctr) {
+			if(_qs_deferred) {
+				// We were the last agent to ack this period and postponed the advance until somebody
+				// asks for it. Nobody else is going to do it for us, so do it now (for the remaining agents).
+				FRG_ASSERT(_acked_qs_counter == ctr);
+				_dom->_agents_to_ack.store(_dom->_num_agents, std::memory_order_relaxed);
+				_dom->_qs_counter.store(ctr + 1, std::memory_order_release);
+				_qs_deferred = false;
+			}else if(_acked_qs_counter != ctr) {
 				FRG_ASSERT(_acked_qs_counter + 1 == ctr);
 
 				// Now ack the QS.
